@@ -24,9 +24,8 @@ def run(chk):
         vlib.run_scripts(chk, vec, c_exe, m_exe, vec.fault_scripts(), vec.oracle)
         vlib.run_scripts(chk, vec, c_exe, m_exe, vec.string_boundaries(chk.tier), vec.oracle)
         # closure to a fixed point per width (the state cap is never the reason the search ends)
-        # (width, max length, with observers): the deeper narrow closure of the thorough tier explores the
-        # edits only; observers are exercised from every state of the length-2 closures
-        runs = [("s", 2, True), ("w", 2, True)] + ([] if quick else [("s", 3, False)])
+        # (width, max length, with observers)
+        runs = [("s", 2, True), ("w", 2, True)] if quick else [("s", 3, True), ("w", 2, True)]
         scopes = {"s": 2 if quick else 3, "w": 2}
         allclosed = True
         before = chk.stats["states"]
@@ -42,8 +41,8 @@ def run(chk):
                               "reachable (contents, capacity) state; boundaries: positions x counts from the DESIGN 3.4 "
                               "set for every edit in 5 states, both widths"
                               % (allclosed, chk.stats["states"] - before, scopes["s"], scopes["w"]))
-        rnd = (vec.random_scripts(chk.rng, 100 if quick else 1200, 60 if quick else 150, "s")
-               + vec.random_scripts(chk.rng, 100 if quick else 1200, 60 if quick else 150, "w"))
+        rnd = (vec.random_scripts(chk.rng, 100 if quick else 2000, 60 if quick else 150, "s")
+               + vec.random_scripts(chk.rng, 100 if quick else 2000, 60 if quick else 150, "w"))
         vlib.run_scripts(chk, vec, c_exe, m_exe, rnd, vec.oracle)
         if chk.mismatches and not chk.oracle_failures:
             m = chk.mismatches[0]
